@@ -19,6 +19,8 @@ Request:
    `FillComputeSeq(SplitIntoBins(spec, getter/vc, edges), IterateBins(sel))`), "twice":b (compute() twice),
    iter: "ces":{"k":"default"|"bad"|"opts","names":[s..]|null,"pre","mid1","mid2","post","join","reverse"},
    "sel" also "default"|"bad"; map: "seq_ok":b; values of pre/post may be histograms {"h":{"edges","bins"},"c":D|null}
+   "sel" may also be a Selector form: {"k":"type","t":"int|str|tuple|list|hist"} | {"k":"ctx","s":"a.b.c"}
+     | {"k":"any"|"all","of":[name | type | ctx ..]};  map: "geb":"default|first|last" (get_example_bin)
 Reply:
   {"init":exc} | {"fill":{"at":k,"e":exc}}
   | {"cells":[[index, {"sum":i,"count":n,"stored":[value..],"last":D}]..],"cur":D,
@@ -244,6 +246,10 @@ def fvalInH : FVal Int V → FVal Int DataH
   | .plain v => .plain (valToH v)
   | .hist h c => .hist ⟨h.edges, NArr.map valToH h.bins⟩ c
 
+/-- a selector on the data part, whatever it was made from -/
+structure SelFn where
+  onData : DataH → Bool
+
 def toSelH (s : String) : Option SelH :=
   match s with
   | "all" => some .all
@@ -251,6 +257,49 @@ def toSelH (s : String) : Option SelH :=
   | "none" => some .none
   | "default" => some .dflt
   | _ => none
+
+def toTypeTag (j : Json) : Option TypeTag :=
+  match str? j with
+  | some "int" => some .int
+  | some "str" => some .str
+  | some "tuple" => some .tuple
+  | some "list" => some .list
+  | some "hist" => some .hist
+  | _ => none
+
+/-- `"a.b.c".split(".")`; the empty string is the context itself -/
+def levelsOf (s : String) : List String := if s == "" then [] else s.splitOn "."
+
+/-- an item of a selector: a name of a harness function, {"k":"type","t":..} (a class), {"k":"ctx","s":..} (a string) -/
+def toAtomH (names : List String) (j : Json) : Option (SelAtom DataH) :=
+  match j with
+  | .str s => (toSelH s).map (SelH.atom names)
+  | _ =>
+    match str? (getD j "k") with
+    | some "type" => (toTypeTag (getD j "t")).map (fun t => SelAtom.cls t.onH)
+    | some "ctx" => (str? (getD j "s")).map (fun s => SelAtom.ctx (levelsOf s))
+    | _ => none
+
+def toAtomV (names : List String) (j : Json) : Option (SelAtom V) :=
+  match j with
+  | .str _ => (toSel j).map (Sel.atom names)
+  | _ =>
+    match str? (getD j "k") with
+    | some "type" => (toTypeTag (getD j "t")).map (fun t => SelAtom.cls t.onV)
+    | some "ctx" => (str? (getD j "s")).map (fun s => SelAtom.ctx (levelsOf s))
+    | _ => none
+
+/-- the `select_bins` argument in the forms a `Selector` is made from: an item, {"k":"any","of":[..]} (a list),
+{"k":"all","of":[..]} (a tuple) -/
+def toForm {D : Type} (toAtom : Json → Option (SelAtom D)) (j : Json) : Option (SelForm D) :=
+  match str? (getD j "k") with
+  | some "any" => do
+    let a ← arr? (getD j "of")
+    (a.toList.mapM toAtom).map SelForm.any
+  | some "all" => do
+    let a ← arr? (getD j "of")
+    (a.toList.mapM toAtom).map SelForm.all
+  | _ => (toAtom j).map SelForm.atom
 
 structure Kit (σ ρ E : Type) where
   an : AnalysisE σ V ρ E
@@ -332,11 +381,17 @@ def runKit {σ ρ E : Type} (names : List String) (j : Json) (k : Kit σ ρ E) (
       let iterJ ← if ij.isNull then pure Json.null else do
         let cesJ := getD ij "ces"
         let cesBad := str? (getD cesJ "k") == some "bad"
-        let selS ← str? (getD ij "sel")
+        let selJ := getD ij "sel"
+        let selS := (str? selJ).getD "form"
         match (iterateBinsInit (!cesBad) (selS != "bad") : Except (Exc IErr) Unit) with
         | .error e => pure (Json.mkObj [("init", Json.str (excName e))])
         | .ok () =>
-          let sel ← toSelH selS
+          -- a name: the harness's function on the data (as before); otherwise a `Selector` form, applied to
+          -- the data part of the example bin
+          let sel : SelH ← if selS == "form" then pure SelH.all else toSelH selS
+          let selData : DataH → Bool ← if selS == "form" then
+              (toForm (toAtomH names) selJ).map (fun f => f.evalData names) else pure sel.onData
+          let sel : SelFn := ⟨selData⟩
           let ces ← toCes names cesJ
           let pre ← toFVals (getD ij "pre")
           let post ← toFVals (getD ij "post")
@@ -367,16 +422,32 @@ def runKit {σ ρ E : Type} (names : List String) (j : Json) (k : Kit σ ρ E) (
         pure (Json.mkObj [("out", ofList ofD t.out), ("fin", ofOpt Json.str t.fin)])
       let mj := getD j "map"
       let mapJ ← if mj.isNull then pure Json.null else do
-        let selS ← str? (getD mj "sel")
+        let selJ := getD mj "sel"
+        let selS := (str? selJ).getD "form"
         let seqOk := (bool? (getD mj "seq_ok")).getD true
         match (mapBinsInit seqOk (selS != "bad") : Except (Exc IErr) Unit) with
         | .error e => pure (Json.mkObj [("init", Json.str (excName e))])
         | .ok () =>
-          let sel ← toSel (Json.str selS)
+          let selV : Val → Bool ← if selS == "form" then
+              (toForm (toAtomV names) selJ).map (fun f => f.eval names)
+            else (toSel selJ).map (fun s => s.onValue names)
           let steps ← toSteps (getD mj "steps")
           let drop ← bool? (getD mj "drop")
           let fl ← stageFlow mj hists
-          pure (ofTraceW id ofFVal (mapBinsRun names (seqStart names steps) (sel.onValue names) drop fl))
+          -- `get_example_bin`: the default, or a caller's function that takes the first / the last cell
+          match (str? (getD mj "geb")).getD "default" with
+          | "first" =>
+            pure (ofTraceW id ofFVal (mapBinsRunG names (fun h => exampleOfArray h.bins) exampleOfArray
+              (seqStart names steps) selV drop fl))
+          | "last" =>
+            pure (ofTraceW id ofFVal (mapBinsRunG names (fun h => lastOfArray h.bins) lastOfArray
+              (seqStart names steps) selV drop fl))
+          | _ =>
+            let t := mapBinsRun names (seqStart names steps) selV drop fl
+            -- `mapBinsOneG_default`: the general definition with the default `get_example_bin`
+            let tG := mapBinsRunG names exampleBin exampleOfArray (seqStart names steps) selV drop fl
+            if (ofTraceW id ofFVal t).compress == (ofTraceW id ofFVal tG).compress then pure (ofTraceW id ofFVal t)
+            else pure (Json.mkObj [("out", Json.arr #[]), ("fin", Json.str "mapBinsRunG differs from mapBinsRun")])
       pure (Json.mkObj [("cells", ofCells k.ofCell s.bins), ("cur", ofD s.curContext), ("compute", compJ),
         ("compute2", comp2J), ("iter", iterJ), ("map", mapJ), ("pipe", pipeJ),
         ("spec", specJson names k av edges s0 s flow)])
